@@ -65,8 +65,11 @@ class MafWriter(object):
             self._sorter = None
         else:
             self._checker = None
+            # sort in the order the header itself declares: its contigs too
             self._sorter = MafSorter(
-                sort_order_name=self._header.sort_order().name(), scheme=self._scheme  # type: ignore
+                sort_order_name=self._header.sort_order().name(),  # type: ignore
+                scheme=self._scheme,
+                contigs=self._header.contigs(),
             )
 
     def header(self) -> MafHeader:
